@@ -26,7 +26,11 @@ def sqlstate_classifier(exc: BaseException) -> ErrorClass:
     if sqlstate is None:
         return default_classifier(exc)
 
-    code = str(sqlstate)
+    try:
+        code = str(sqlstate)
+    except ValueError:
+        # e.g. an int beyond sys.get_int_max_str_digits(): not a SQLSTATE
+        return ErrorClass.UNKNOWN
     if code in {"40001", "40P01"}:
         return ErrorClass.CONCURRENCY
     if code in {"HYT00", "HYT01", "08S01"} or code.startswith("08"):
